@@ -207,6 +207,22 @@ static void op_epl(int argc, char **argv) {
 	fputc('\n', OUT);
 }
 
+/* ep_glv <k> : the GLV decomposition the library uses on the active endomorphism curve: prints k0 k1 (signed hex) */
+static void op_ep_glv(int argc, char **argv) {
+	if (argc < 2) { fprintf(OUT, "bad-args\n"); return; }
+	if (!ep_curve_is_endom()) { fprintf(OUT, "no-endom\n"); return; }
+	bn_t k, k0, k1, n; raw_t r; int caught = 0;
+	bn_null(k); bn_null(k0); bn_null(k1); bn_null(n); bn_new(k); bn_new(k0); bn_new(k1); bn_new(n);
+	raw_parse(&r, argv[1]); raw_to_bn(k, &r);
+	RLC_TRY {
+		ep_curve_get_ord(n);
+		bn_mod(k, k, n);
+		bn_rec_glv(k0, k1, k, n, ep_curve_get_v1(), ep_curve_get_v2());
+	} RLC_CATCH_ANY { caught = 1; }
+	if (take_err() || caught) { fprintf(OUT, "err\n"); return; }
+	bn_out(k0); fputc(' ', OUT); bn_out(k1); fputc('\n', OUT);
+}
+
 /* ep_write_bin <len> <pack> <P> ; ep_read_bin <hex> */
 static void op_ep_write_bin(int argc, char **argv) {
 	if (argc < 4) { fprintf(OUT, "bad-args\n"); return; }
@@ -235,7 +251,7 @@ static void op_ep_read_bin(int argc, char **argv) {
 #include "ops_ep2.inc"
 
 const op_t ops_ep[] = {
-	{"ep_param", op_ep_param}, {"ep2", op_ep2}, {"ep1", op_ep1}, {"epm", op_epm}, {"eps", op_eps}, {"epl", op_epl}, {"epd", op_epl}, {"epla", op_epl}, {"epda", op_epl},
+	{"ep_param", op_ep_param}, {"ep2", op_ep2}, {"ep1", op_ep1}, {"epm", op_epm}, {"eps", op_eps}, {"ep_glv", op_ep_glv}, {"epl", op_epl}, {"epd", op_epl}, {"epla", op_epl}, {"epda", op_epl},
 	{"ep_write_bin", op_ep_write_bin}, {"ep_read_bin", op_ep_read_bin},
 	EP2_OPS
 	{NULL, NULL}
